@@ -140,6 +140,11 @@ JOBS['C01'] = [
     e2e('e2e_u8_n4_e1_r0_pAAAB', 'uint8_t', 4, 1, 0, timeout=1800, extra=dict(PATTERN=3)),
     e2e('e2e_u8_n4_e1_r0_pAABB', 'uint8_t', 4, 1, 0, timeout=1800, extra=dict(PATTERN=5)),
     e2e('e2e_u8_n4_e1_r1_pAAAA', 'uint8_t', 4, 1, 1, timeout=1800, extra=dict(PATTERN=7)),
+    e2e('e2e_u8_n4_e1_r0_pAABC', 'uint8_t', 4, 1, 0, tiers=T, timeout=3000, extra=dict(PATTERN=1)),
+    e2e('e2e_u8_n4_e1_r0_pABBC', 'uint8_t', 4, 1, 0, tiers=T, timeout=3000, extra=dict(PATTERN=2)),
+    e2e('e2e_u8_n4_e1_r0_pABCC', 'uint8_t', 4, 1, 0, tiers=T, timeout=3000, extra=dict(PATTERN=4)),
+    e2e('e2e_u8_n4_e1_r0_pABBB', 'uint8_t', 4, 1, 0, tiers=T, timeout=3000, extra=dict(PATTERN=6)),
+    e2e('e2e_u8_n4_e1_r0_pAAAA', 'uint8_t', 4, 1, 0, tiers=T, timeout=3000, extra=dict(PATTERN=7)),
     e2e('e2e_i8_n5_e1_r0_pAAAAB', 'int8_t', 5, 1, 0, tiers=T, timeout=4000, extra=dict(PATTERN=7), mem_gb=30),
     e2e('e2e_i8_n4_e1_r0', 'int8_t', 4, 1, 0, tiers=T, timeout=4000, mem_gb=30),
     e2e('e2e_u8_n2_e1_r1_dbl', 'uint8_t', 2, 1, 1, flt='double', tiers=T, timeout=3000),
